@@ -114,6 +114,14 @@ func (c *c01MatCase) build() (src string, binds map[string]any, ok bool) {
 		src = "{% tablerow i in r cols: a0 %}{{ i }}{% endtablerow %}"
 	case "loop":
 		src = "{% for i in r reversed %}{{ i }}{{ forloop.rindex }}{% cycle 'a', 'b' %}{% else %}E{% endfor %}{% tablerow i in r %}{{ i }}{% endtablerow %}{% for i in r %}{% for j in i %}{{ j }}{% endfor %}{% endfor %}"
+	case "cycle2":
+		// two cycle tags in one loop (same or different group, different lengths), c.Name = "i,j"
+		var i, j int
+		fmt.Sscanf(c.Name, "%d,%d", &i, &j)
+		if i >= len(c01Cycles) || j >= len(c01Cycles) {
+			return "", nil, false
+		}
+		src = "{% for i in r %}{% cycle " + c01Cycles[i] + " %}{% cycle " + c01Cycles[j] + " %}{% for k in (1..2) %}{% cycle " + c01Cycles[j] + " %}{% endfor %}{% endfor %}{% tablerow i in r %}{% cycle " + c01Cycles[i] + " %}{% cycle " + c01Cycles[j] + " %}{% endtablerow %}"
 	case "case":
 		src = "{% case r %}{% when a0 %}W{% when 1, a0, r %}X{% else %}E{% endcase %}"
 	case "range":
@@ -164,7 +172,7 @@ var c01Matrix = hx.Define("c01.matrix", func(c *c01MatCase, s *hx.Sub) *hx.Viola
 	if !ok {
 		return hx.V("harness-error", "bad matrix case %+v", c)
 	}
-	loops := c.Form == "loopmod" || c.Form == "loop" || c.Form == "range" || c.Form == "cols"
+	loops := c.Form == "loopmod" || c.Form == "loop" || c.Form == "range" || c.Form == "cols" || c.Form == "cycle2"
 	if v := c01Judge(src, binds, loops); v != nil {
 		v.Message = fmt.Sprintf("form=%s name=%s r=%s a=%v: %s", c.Form, c.Name, c.R, c.A, v.Message)
 		return v
@@ -175,6 +183,8 @@ var c01Matrix = hx.Define("c01.matrix", func(c *c01MatCase, s *hx.Sub) *hx.Viola
 	}
 	return nil
 })
+
+var c01Cycles = []string{"'a', 'b', 'c'", "'x'", "'p', 'q'", `"g": 'a', 'b', 'c'`, `"g": 'x'`, `'g': '1', '2'`, `"h": 'y', 'z'`, "'a', 'b', 'c', 'd', 'e'", `"": 'm', 'n'`}
 
 var c01Ops = []string{"==", "!=", "<", ">", "<=", ">=", "contains", "and", "or"}
 var c01TwoArg = []string{"slice", "truncate", "truncatewords", "replace", "replace_first", "date", "sort", "default", "map", "round", "join", "split", "concat"}
@@ -451,8 +461,12 @@ func (g *hostileGen) stmt(d int) string {
 	case 16:
 		return g.tag([]string{"break", "continue"}[g.pick("bc", 2)])
 	case 17:
-		vals := []string{"'a', 'b'", `"g": 'a', 'b', 'c'`, "'x'", "1, 2", "u1", "", "'a' 'b'"}
-		return g.tag("cycle " + vals[g.pick("cy", len(vals))])
+		vals := append([]string{"1, 2", "u1", "", "'a' 'b'"}, c01Cycles...)
+		s := g.tag("cycle " + vals[g.pick("cy", len(vals))])
+		if g.pick("cy2", 2) == 0 {
+			s += g.tag("cycle " + vals[g.pick("cyb", len(vals))])
+		}
+		return s
 	case 18:
 		return g.tag("include " + g.expr(0))
 	default:
@@ -584,6 +598,13 @@ func TestC01(t *testing.T) {
 			run(&c01MatCase{Form: "filter-assign", Name: f, R: r.Name})
 			for _, a := range c01U {
 				run(&c01MatCase{Form: "filter", Name: f, R: r.Name, A: []string{a.Name}})
+			}
+		}
+	}
+	for i := range c01Cycles {
+		for j := range c01Cycles {
+			for _, r := range []string{"[3,1,2]", "[1]", "range(1..3)", "[]", "[mixed]", "{a:1,b:2}"} {
+				run(&c01MatCase{Form: "cycle2", Name: fmt.Sprintf("%d,%d", i, j), R: r})
 			}
 		}
 	}
